@@ -454,3 +454,142 @@ Proof.
   { induction n as [|n' IHn]; intros l'; simpl; [reflexivity|]. destruct l'; simpl; rewrite IHn; reflexivity. }
   rewrite Hl. lia.
 Qed.
+
+(* ------------------------------------------------------------------ reachable file states (history level of S) *)
+(** every descriptor of a tracked file is either length-less or lies inside [0, end of file], and the end of file
+    is within [0, 2^31-1]: the precondition [dd_ok] of HTPstart / HTIupdate_dd holds in every reachable state *)
+Definition elem_ok (eof : Z) (e : elem) : Prop :=
+  (e_off e = -1 /\ e_len e = -1) \/ (0 <= e_off e /\ 0 <= e_len e /\ e_off e + e_len e <= eof).
+Definition h_inv (h : hst) : Prop :=
+  h_known h = true -> 0 <= h_eof h <= INT32_MAX /\ 0 < h_ndds h /\ 0 <= h_free h /\ Forall (elem_ok (h_eof h)) (h_elems h).
+
+Lemma elem_ok_mono : forall eof eof' e, eof <= eof' -> elem_ok eof e -> elem_ok eof' e.
+Proof. unfold elem_ok. intros eof eof' e H [H1|H1]; [left; exact H1 | right; lia]. Qed.
+Lemma forall_ok_mono : forall eof eof' l, eof <= eof' -> Forall (elem_ok eof) l -> Forall (elem_ok eof') l.
+Proof. intros eof eof' l H. apply Forall_impl. intros a. apply elem_ok_mono. exact H. Qed.
+Lemma forall_filter : forall (P : elem -> Prop) f l, Forall P l -> Forall P (filter f l).
+Proof. intros P f l H. induction H; simpl; [constructor|]. destruct (f x); [constructor; assumption | assumption]. Qed.
+Lemma set_elem_ok : forall h e eof, Forall (elem_ok eof) (h_elems h) -> elem_ok eof e -> Forall (elem_ok eof) (set_elem h e).
+Proof. intros h e eof H He. unfold set_elem. constructor; [exact He | apply forall_filter; exact H]. Qed.
+
+Lemma h_create_inv : forall ndds, 0 <= ndds <= 32767 -> h_inv (h_create ndds).
+Proof.
+  intros ndds Hn _. unfold h_create, norm_ndds, ddblock_size, MAGICLEN, NDDS_SZ, OFFSET_SZ, DD_SZ, LIBVER_LEN, DEF_NDDS, MIN_NDDS, INT32_MAX.
+  simpl h_eof. simpl h_ndds. simpl h_free. simpl h_elems.
+  destruct (Z.eqb_spec ndds 0); [|destruct (Z.ltb_spec ndds 4)];
+    (split; [lia | split; [lia | split; [lia | constructor; [right; simpl; lia | constructor]]]]).
+Qed.
+
+Lemma alloc_dd_inv : forall h h1, h_inv h -> alloc_dd h = Some h1 ->
+  h_inv h1 /\ h_known h1 = h_known h /\ h_elems h1 = h_elems h /\ (h_known h = true -> h_eof h <= h_eof h1).
+Proof.
+  intros h h1 Hi. unfold alloc_dd.
+  destruct (h_known h) eqn:Hk; simpl.
+  - destruct (Hi Hk) as [He [Hn [Hf Ha]]].
+    destruct (Z.ltb_spec 0 (h_free h)).
+    + intro H1; inversion H1; subst; clear H1. simpl.
+      split; [|repeat split; try reflexivity; intros; simpl; lia].
+      intros _. simpl. repeat split; try lia. assumption.
+    + destruct (Z.leb_spec (h_eof h + ddblock_size (h_ndds h)) INT32_MAX); [|discriminate].
+      intro H1; inversion H1; subst; clear H1. simpl.
+      assert (0 <= ddblock_size (h_ndds h)) by (unfold ddblock_size, NDDS_SZ, OFFSET_SZ, DD_SZ; lia).
+      split; [|repeat split; try reflexivity; intros; simpl; lia].
+      intros _. simpl. repeat split; try lia. apply (forall_ok_mono (h_eof h)); [lia | assumption].
+  - intro H1; inversion H1; subst. split; [exact Hi|]. rewrite Hk. repeat split; try reflexivity; try (intros Hc; discriminate).
+Qed.
+
+Lemma give_block_inv : forall h tag ref len w, h_inv h -> h_inv (fst (give_block h tag ref len w)).
+Proof.
+  intros h tag ref len w Hi. unfold give_block.
+  destruct (Z.ltb_spec len 0); [exact Hi|].
+  destruct (h_known h) eqn:Hk.
+  - destruct (Hi Hk) as [He [Hn [Hf Ha]]].
+    destruct (Z.leb_spec (h_eof h + len) INT32_MAX); simpl; [|exact Hi].
+    intros _. simpl. repeat split; try lia.
+    apply set_elem_ok; [apply (forall_ok_mono (h_eof h)); [lia | assumption] | right; simpl; lia].
+  - simpl. intros Hc. simpl in Hc. discriminate.
+Qed.
+
+Lemma with_placeholder_inv : forall h tag ref m,
+  h_inv h -> h_inv (mkH (h_known h) (h_eof h) (h_ndds h) (h_free h) m (set_elem h (mkE tag ref (-1) (-1) false)) (h_bulk h)).
+Proof.
+  intros h tag ref m Hi Hk. simpl in Hk. destruct (Hi Hk) as [He [Hn [Hf Ha]]]. simpl.
+  repeat split; try lia. apply set_elem_ok; [assumption | left; simpl; split; reflexivity].
+Qed.
+
+Lemma new_element_inv : forall h tag ref len w, h_inv h -> h_inv (fst (new_element h tag ref len w)).
+Proof.
+  intros h tag ref len w Hi. unfold new_element.
+  destruct (negb (h_known h) && (FAR <? len)); [exact Hi|].
+  destruct (in_bulk h tag ref); [exact Hi|].
+  destruct (find_elem h tag ref) as [e|].
+  - destruct (0 <=? e_len e); [exact Hi|].
+    pose proof (give_block_inv h tag ref len w Hi) as Hg.
+    destruct (give_block h tag ref len w) as [h' okb]. simpl in *. exact Hg.
+  - destruct (alloc_dd h) as [h1|] eqn:Ea; [|exact Hi].
+    destruct (alloc_dd_inv h h1 Hi Ea) as [Hi1 _].
+    pose proof (with_placeholder_inv h1 tag ref (Z.max (h_maxref h1) ref) Hi1) as Hp.
+    match goal with |- context [give_block ?hh tag ref len w] => pose proof (give_block_inv hh tag ref len w Hp) as Hg;
+      destruct (give_block hh tag ref len w) as [h3 okb] end.
+    simpl in *. exact Hg.
+Qed.
+
+Lemma step_h_inv : forall h v o, (forall n, o <> OHopen n) -> h_inv h -> h_inv (fst (step_h h v o)).
+Proof.
+  intros h v o Hno Hi. destruct o; simpl; try exact Hi.
+  - exfalso. apply (Hno ndds). reflexivity.
+  - apply new_element_inv. exact Hi.
+  - destruct (n <=? 0); simpl; apply new_element_inv; exact Hi.
+  - destruct (find_elem h tag ref) as [e|]; [|destruct (in_bulk h tag ref)]; try exact Hi.
+    destruct (e_written e); [exact Hi|]. destruct (e_len e <? 0); exact Hi.
+  - destruct (h_known h); exact Hi.
+  - (* appendat *)
+    destruct (find_elem h tag ref) as [e|] eqn:Ef; simpl.
+    + destruct (h_known h) eqn:Hk; simpl; [|intros Hc; discriminate].
+      destruct (Z.ltb_spec (e_len e) 0); simpl; [intros Hc; discriminate|].
+      destruct (Z.eqb_spec (e_off e + e_len e) (h_eof h)); simpl; [|intros Hc; discriminate].
+      destruct (Z.ltb_spec pos 0); simpl; [intros Hc; discriminate|].
+      destruct (Z.leb_spec n 0); simpl; [intros Hc; discriminate|].
+      destruct (Z.leb_spec (pos + n) INT32_MAX); simpl; [|exact Hi].
+      destruct (Z.leb_spec (e_off e + pos + n) INT32_MAX); simpl; [|exact Hi].
+      destruct (Hi Hk) as [He [Hn [Hf Ha]]].
+      assert (Hoff : 0 <= e_off e).
+      { unfold find_elem in Ef. apply find_some in Ef. destruct Ef as [Hin _].
+        rewrite Forall_forall in Ha. destruct (Ha e Hin) as [[Hq1 Hq2]|Hq1]; lia. }
+      intros _. simpl. repeat split; try lia.
+      apply set_elem_ok; [apply (forall_ok_mono (h_eof h)); [lia | assumption] | right; simpl; lia].
+    + intros Hc; discriminate.
+  - (* hlwrite *)
+    destruct (find_elem h tag ref); [exact Hi|].
+    destruct ((pos <? 0) || (n <=? 0) || (blen <=? 0) || (nblk <=? 0) || in_bulk h tag ref); [exact Hi|].
+    destruct (pos + n <=? INT32_MAX); simpl; intros Hc; discriminate.
+  - (* fillrefs *)
+    match goal with |- context [if ?c then _ else _] => destruct c eqn:Ec end; [exact Hi|].
+    apply orb_false_iff in Ec. destruct Ec as [Ec _]. apply orb_false_iff in Ec. destruct Ec as [Ec _].
+    apply orb_false_iff in Ec. destruct Ec as [Ec _]. apply orb_false_iff in Ec. destruct Ec as [Ec Hlo].
+    apply orb_false_iff in Ec. destruct Ec as [Hk Hkk]. apply negb_false_iff in Hk.
+    apply Z.leb_gt in Hkk.
+    destruct (Hi Hk) as [He [Hn [Hf Ha]]].
+    set (k := hi - lo + 1) in *.
+    set (nb := if k <=? h_free h then 0 else (k - h_free h + h_ndds h - 1) / h_ndds h).
+    assert (Hnb : 0 <= nb).
+    { unfold nb. destruct (Z.leb_spec k (h_free h)); [lia|]. apply Z.div_pos; lia. }
+    assert (Hfree : 0 <= (if k <=? h_free h then h_free h - k else nb * h_ndds h - (k - h_free h))).
+    { unfold nb. destruct (Z.leb_spec k (h_free h)); [lia|].
+      pose proof (Z.div_mod (k - h_free h + h_ndds h - 1) (h_ndds h) ltac:(lia)) as Hdm.
+      pose proof (Z.mod_pos_bound (k - h_free h + h_ndds h - 1) (h_ndds h) Hn) as Hmb. nia. }
+    assert (Hdd : 0 <= ddblock_size (h_ndds h)) by (unfold ddblock_size, NDDS_SZ, OFFSET_SZ, DD_SZ; lia).
+    destruct (Z.leb_spec (h_eof h + k + nb * ddblock_size (h_ndds h)) FAR); simpl; [|exact Hi].
+    intros _. simpl. unfold FAR, INT32_MAX in *. repeat split; try nia.
+    apply (forall_ok_mono (h_eof h)); [nia | assumption].
+  - (* newref *)
+    destruct (h_maxref h <? 0); [exact Hi|].
+    destruct (h_maxref h <? MAX_REF); simpl.
+    + intros Hk. simpl in Hk. exact (Hi Hk).
+    + destruct (vgs v); [destruct (vss v)|]; try exact Hi.
+      match goal with |- context [if ?c then _ else _] => destruct c end; exact Hi.
+  - match goal with |- context [if ?c then _ else _] => destruct c end; exact Hi.
+Qed.
+
+Lemma elem_ok_dd_ok : forall eof e, 0 <= eof <= INT32_MAX -> elem_ok eof e -> dd_ok (e_off e, e_len e).
+Proof. unfold elem_ok, dd_ok. simpl. intros eof e He [H|H]; [left; exact H | right; lia]. Qed.
